@@ -43,6 +43,23 @@ def gen_world(rng, prop, long_dim=False):
         if len(items) >= 2 and rng.chance(0.4):
             items = rng.shuffled(items)  # items are labels: their order in the dimension need not be ascending
         dims.append({"letter": letter, "name": NAMES[letter], "items": items, "dtype": dt})
+    intlike = lambda d: isinstance(d["items"][0], int)  # noqa
+    if not long_dim and rng.chance(0.25):
+        # a counter dimension (ages, cohorts): 0..n-1, the numbers pandas gives to rows
+        cand = [d for d in dims if intlike(d)]
+        if cand:
+            d = rng.choice(cand)
+            d["items"] = list(range(len(d["items"])))
+            if rng.chance(0.3):
+                d["items"] = rng.shuffled(d["items"])
+    if not long_dim and len(dims) >= 2 and rng.chance(0.15):
+        # nested item sets: the item sets are pairwise different, but one dimension's labels all occur in another dimension as well
+        i, j = rng.sample(range(len(dims)), 2)
+        if intlike(dims[i]) == intlike(dims[j]) and not any(str(x).isdigit() for x in dims[i]["items"] + dims[j]["items"] if isinstance(x, str)) \
+                and set(dims[i]["items"]).isdisjoint(dims[j]["items"]):
+            dims[j]["items"] = list(dims[i]["items"]) + dims[j]["items"][:rng.randint(1, 2)]
+            if rng.chance(0.3):
+                dims[j]["items"] = rng.shuffled(dims[j]["items"])
     if long_dim:
         n_long = rng.randint(33000, 40000)
         dims = dims[:rng.randint(0, 1)]
@@ -74,6 +91,15 @@ def gen_world(rng, prop, long_dim=False):
     layout["label_repr"] = {d["name"]: (rng.choice(["native", "native", "converted"]) if d["dtype"] in ("int", "str") else "native") for d in dims}
     layout["row_index"] = rng.weighted([("range", 4), ("permuted", 2), ("offset", 1)])
     layout["int_values"] = rng.chance(0.15)  # whole-number values in an integer typed column
+    layout["blank_headers"] = rng.chance(0.5)
+    ints = [k for k, d in enumerate(dims) if isinstance(d["items"][0], int)]
+    if ints and not long_dim and rng.chance(0.08):
+        # values that repeat the labels of one dimension (or the labels plus a fraction): a value column then holds the very numbers
+        # that are this dimension's items
+        layout["mimic"] = {"dim": rng.choice(ints), "frac": rng.chance(0.5)}
+        layout["int_values"] = layout["int_values"] and not layout["mimic"]["frac"]
+        zeros = []
+        layout["sparse"] = False
     return {"dims": dims, "zeros": zeros, "vseed": rng.randint(0, 10 ** 6), "layout": layout, "medium": medium,
             "consumer": consumer, "flags": flags, "storage": rng.weighted([("C", 3), ("F", 2), ("einsum_view", 2), ("sliced", 1)])}
 
@@ -92,6 +118,11 @@ def make_values(world, shape):
     vals = 5000.25 + 0.5 * rs.permutation(size)
     if world["layout"].get("int_values"):
         vals = 5000.0 + 2.0 * rs.permutation(size)
+    mim = world["layout"].get("mimic")
+    if mim and shape:
+        its = world["dims"][mim["dim"]]["items"]
+        grid = np.indices(shape)[mim["dim"]].reshape(-1)
+        vals = np.array([float(its[g]) + (0.125 if mim["frac"] else 0.0) for g in grid])
     for n_, z in enumerate(world["zeros"]):
         # most of the listed entries are exact zeros; every third one is a tiny but non-zero number (a sparse export must keep it)
         vals[z % size] = 0.0 if (n_ % 3 or world["layout"].get("int_values")) else [1e-9, -3e-12, 2.5e-10][n_ % 9 // 3]
@@ -183,7 +214,8 @@ def style_headers(frame, world, dims, rng_bits):
             elif style == "mixed":
                 c["header"], c["ident"] = (d.letter if (k + rng_bits) % 2 else d.name), "name"
             else:
-                c["header"], c["ident"] = f"col{k}", "items"
+                # a neutral name, or what pandas makes of a blank header cell
+                c["header"], c["ident"] = (f"Unnamed: {k}" if world["layout"].get("blank_headers") else f"col{k}"), "items"
             k += 1
         elif c["role"] == "value":
             c["header"] = world["layout"]["value_name"]
@@ -270,10 +302,24 @@ def apply_fault(frame, f, dims, st):
             frame.cols = [frame.cols[i] for i in order]
             frame.rows = [[r[i] for i in order] for r in frame.rows]
         return True
-    if kind in ("drop_row", "dup_row_same", "dup_row_other", "relabel_unknown", "relabel_known", "blank_value", "blank_label"):
+    if kind in ("drop_row", "drop_item", "dup_row_same", "dup_row_other", "relabel_unknown", "relabel_known", "blank_value", "blank_label"):
         if nrows == 0:
             return False
         i = f["row"] % nrows
+        if kind == "drop_item":
+            # a whole category is missing from the data: every row that carries this label
+            dc = [k for k, c in enumerate(frame.cols) if c["role"] == "dim"]
+            if not dc:
+                return False
+            k = dc[f.get("col", 0) % len(dc)]
+            lab = frame.rows[i][k]
+            if f.get("target"):  # aimed at one label of one dimension
+                hit = [k_ for k_ in dc if frame.cols[k_]["dim"] == f["target"][0]]
+                if not hit:
+                    return False
+                k, lab = hit[0], f["target"][1]
+            frame.rows = [r for r in frame.rows if r[k] != lab]
+            return True
         if kind == "drop_row":
             del frame.rows[i]
             return True
@@ -357,11 +403,27 @@ def apply_fault(frame, f, dims, st):
     return False
 
 
-RECORD_FAULTS = ["drop_row", "dup_row_same", "dup_row_other", "relabel_unknown", "relabel_known", "blank_value", "blank_label", "append_unknown_row"]
+RECORD_FAULTS = ["drop_row", "drop_item", "dup_row_same", "dup_row_other", "relabel_unknown", "relabel_known", "blank_value", "blank_label", "append_unknown_row"]
 COLUMN_FAULTS = ["drop_dim_col", "add_junk_col", "rename_wide_col"]
 
 
 # ============================================================================= expectation from the frame
+def _could_be_items(cells, d):
+    if not cells:
+        return False
+    items = set(d.items)
+    try:
+        if set(cells) == items:
+            return True
+        if d.dtype is str:
+            return {str(c) for c in cells} == items
+        if d.dtype is int:
+            return all(float(c) == int(float(c)) for c in cells) and {int(float(c)) for c in cells} == items
+    except (TypeError, ValueError, OverflowError):
+        return False
+    return False
+
+
 def expectation(frame, dims, flags, world):
     """what the property demands for the table as it now is.
     returns dict(mode = 'return' | 'raise' | 'either', expected ndarray (for return / either), why)"""
@@ -376,6 +438,17 @@ def expectation(frame, dims, flags, world):
     widedim = None
     if wide_items or world["layout"]["wide"] is not None:
         widedim = dl[world["layout"]["wide"]]
+    # "when the values cannot be mistaken for items": a column of numbers whose set equals the item set of a dimension that has
+    # no column found by name or letter (one identified by its items, a single-item one left out, the one spread over the
+    # columns), or that together with its header reads like a headerless column of items, is outside the asserted domain
+    named = {c["dim"] for c in frame.cols if c["role"] == "dim" and c.get("ident") == "name"}
+    for k, c in enumerate(frame.cols):
+        if c["role"] == "dim":
+            continue
+        cells = [r[k] for r in frame.rows if r[k] is not None]
+        for d in dl:
+            if (d.name not in named and _could_be_items(cells, d)) or _could_be_items([c["header"]] + cells, d):
+                return {"mode": "either", "why": "values_look_like_items", "expected": None}
     # ---- structure
     for d in dl:
         if d.name not in present and d is not widedim and len(d.items) > 1:
@@ -511,6 +584,18 @@ class IoChan(Engine):
         else:
             nf = rng.weighted([(0, 1), (1, 5), (2, 3), (3, 1)])
             ops = [self.gen_fault(rng, prop) for _ in range(nf)]
+            ds = world["dims"]
+            nested = [(i, j) for i in range(len(ds)) for j in range(len(ds)) if i != j and set(ds[i]["items"]) < set(ds[j]["items"])]
+            if nested and rng.chance(0.6):
+                # the categories that tell the larger dimension from the smaller one are missing from the data
+                i, j = rng.choice(nested)
+                extra = [x for x in ds[j]["items"] if x not in ds[i]["items"]]
+                ops = [{"f": "drop_item", "row": 0, "col": 0, "pos": 0, "item": 0, "seed": 0, "target": [ds[j]["name"], x]} for x in extra] + ops[:1]
+                if rng.chance(0.7):
+                    world["layout"]["header"] = "items"
+                    world["layout"]["wide"] = None if rng.chance(0.7) else world["layout"]["wide"]
+                if rng.chance(0.7):
+                    world["flags"][0] = True
             if world["medium"] in ("csv", "csv_reader") and rng.chance(0.08):
                 ops.append({"f": "truncate", "frac": rng.randint(5, 95), "boundary": rng.chance(0.5)})
             if world["medium"] != "df" and rng.chance(0.05):
@@ -545,7 +630,7 @@ class IoChan(Engine):
         ncols = len(world["dims"]) + 4
         for row in range(min(nrows, 27)):
             for kind in RECORD_FAULTS:
-                for col in range(min(ncols, len(world["dims"]) + 1) if kind in ("relabel_unknown", "relabel_known", "blank_label", "blank_value") else 1):
+                for col in range(min(ncols, len(world["dims"]) + 1) if kind in ("relabel_unknown", "relabel_known", "blank_label", "blank_value", "drop_item") else 1):
                     faults.append({"f": kind, "row": row, "col": col, "pos": row, "item": 0, "seed": 0})
         for kind in COLUMN_FAULTS:
             for col in range(len(world["dims"])):
